@@ -141,6 +141,10 @@ def families(rng, quick):
                 f"try:\n    print(not a {op} b)\nexcept TypeError:\n    print('TypeError')\n")
     for field in ["{set([x, y])}", "{set([x, y])!r:>10}", "{ set([x, y])}", "{len(set([x, y]))}", "{set([x])}{set([y])}"]:
         add("use-set-literal", f"fstring:{field}", f'x, y = 1, 2\nprint(f"{field}")\n')
+    # dropping `not ` in front of a display that is the leftmost operand: the display's `{` next to the field's `{`
+    for field in ["{not {x, y} == s}", "{not {x, y} != s!r:>10}", "{not {x: y} == s}", "{not {c for c in s} < s}", "{ not {x, y} == s}",
+                  "{not ({x, y} == s)}", "{not s == {x, y}}", "{not {x, y} is False}", "{not {x} == s}{not {y} in [s]}"]:
+        add("invert-boolean-check", f"fstring:{field}", f'x, y, s = 1, 2, {{1, 2}}\nprint(f"{field}")\n')
     for name, src in sql_extra_programs():
         add("sql-parameterization", name, src)
     for name, src in sql_printf_programs(rng, 16 if quick else 200):
